@@ -79,6 +79,8 @@ def families(tier, seed):
                         name=f'real manager sweep [{be or "default"}] {fname} holds={nh} goals={ng} {shapes.mode_name(moore, plus_one)} {sh.name}',
                         run=harness.sweep(cr.FUNCTIONS[fname], sh, params, 'automaton', seed, ns, be), label='bounded'))
     for be in ('cudd', 'autoref'):
+        out.append(dict(name=f'chain games: persistence sets take turns over several outer iterations [{be}]', run=gm.chain_games(be), label='bounded'))
+    for be in ('cudd', 'autoref'):
         out.append(dict(name=f'same automaton object solved again after its game was replaced [{be}]',
                         run=gm.resolve_same_automaton('rabin', seed, 8 if tier == 'quick' else 120, be), label='bounded'))
     return out
